@@ -316,6 +316,11 @@ func RunCase(k *fw.Case, cfg *Config) {
 	if cfg.BigSets > 0 && r.Intn(cfg.BigSets) == 0 {
 		g.MinRules, g.MaxRules = 24, 40
 		k.Count("big_rule_sets", 1)
+		if r.Intn(4) == 0 {
+			// more rules than any worker pool a stage might be given
+			g.MinRules, g.MaxRules = 66, 90
+			k.Count("huge_rule_sets", 1)
+		}
 	}
 	rs := Gen(r, g)
 	obs := NewObs()
